@@ -134,7 +134,7 @@ def _run(ctx, pt, rng, quick, cap, tmpdir):
     results = zoo.run_pool(zoo.run_decode_job, jobs)
 
     # ---- verified checker + independent evaluation ------------------------------------------------
-    req = list(mat_lines)
+    req = []
     idx = []
     for job, res in zip(jobs, results):
         family, cs, ds, mode, dom = meta[job['id']]
@@ -143,7 +143,7 @@ def _run(ctx, pt, rng, quick, cap, tmpdir):
             if r.get('recovery') is not None:
                 idx.append((job['id'], k, len(req)))
                 req.append('rok %s %d %s %s' % (cname, n, r['recovery'] or '-', r['syndrome']))
-    out = ctx.model('dec', req, timeout=1800)
+    out = zoo.model_parallel(ctx, 'dec', req, prefix=mat_lines)
     verdict = {(j, k): out[i] for j, k, i in idx}
 
     kern = []
